@@ -18,7 +18,9 @@ for sid in sorted(os.listdir(os.path.join(ROOT, 'seeded'))):
                          text=True).stdout
     obs = sorted(set(re.findall(r'VIOLATED (C\d\d-[a-z])', out)))
     first = out.splitlines()[0].split()[-1] if out else '?'
-    rnd = {'1': 1, '2': 1, '3': 2, '4': 2, '5': 3, '6': 3, '7': 4}[sid.split('-')[1]]
+    rnd = {'1': 1, '2': 1, '3': 2, '4': 2, '5': 3, '6': 3, '7': 4, '8': 5}[sid.split('-')[1]]
+    if HIST.get(sid, '').startswith('fifth round'):
+        rnd = 5
     meta.setdefault('breaks_property', prop)
     meta['detected_by'] = obs
     meta['verdict_now'] = first
